@@ -70,6 +70,13 @@ class BalancedMoveRule(BaseRule):
             return _TYPE_CONST_OF_MULTIPLY
 
         if isinstance(node.parent, AddExpression):
+            # Only a top-level addend can move: every node between it and its side
+            # of the equation must be an addition.
+            top: MathExpression = node.parent
+            while isinstance(top.parent, AddExpression):
+                top = top.parent
+            if top.parent is not root:
+                return None
             if isinstance(node, ConstantExpression) or get_term_ex(node) is not None:
                 return _TYPE_ADDITION
 
